@@ -232,6 +232,92 @@ func runC05(c *Ctx) {
 		}
 		c.verdictIf(okMiss, P, "dedup", "lookup=pathHandles fresh-only-on-miss", p.instrPos(pathLookup), "fresh id only when the path is not tracked", "a fresh id can be issued although the path lookup hit")
 	}
+	// evict-exit: the eviction loop is left only when the deletion counter is exhausted
+	c.rule(P, "evict-exit", "the eviction loop in Allocate exits only on the deletion counter reaching zero (no other exit can leave the table over its limit)", 1)
+	{
+		var delBlock *ssa.BasicBlock
+		deleters := map[*ssa.Function]bool{}
+		for _, fn := range p.SrcFuncs {
+			for _, b := range fn.Blocks {
+				for _, in := range b.Instrs {
+					if _, ok := isDeleteOn(in, "FileHandleMap", "handles"); ok {
+						deleters[fn] = true
+					}
+				}
+			}
+		}
+		deleters = p.transitiveCallers(deleters)
+		for _, b := range alloc.Blocks {
+			for _, in := range b.Instrs {
+				if _, ok := isDeleteOn(in, "FileHandleMap", "handles"); ok && inCycle(b) {
+					delBlock = b
+				}
+				if ci, ok := in.(ssa.CallInstruction); ok && inCycle(b) {
+					for _, callee := range p.calleesAt(alloc, ci) {
+						if deleters[callee] && callee != alloc {
+							delBlock = b
+						}
+					}
+				}
+			}
+		}
+		if delBlock == nil {
+			c.bad(P, "evict-exit", "loop=Allocate-eviction", p.pos(alloc.Pos()), "Allocate has no eviction loop deleting from handles")
+		} else {
+			// loop = blocks that can reach delBlock and are reachable from it
+			fromDel := reachAvoiding([]*ssa.BasicBlock{delBlock}, nil, nil)
+			inLoop := map[*ssa.BasicBlock]bool{}
+			for b := range fromDel {
+				if reachAvoiding([]*ssa.BasicBlock{b}, nil, nil)[delBlock] {
+					inLoop[b] = true
+				}
+			}
+			good, why := true, ""
+			nExit := 0
+			for b := range inLoop {
+				for _, s := range b.Succs {
+					if inLoop[s] {
+						continue
+					}
+					nExit++
+					// exit edge: condition must be counter > 0 (false) where counter is a phi decremented by 1 in the loop
+					ifi := blockIf(b)
+					okExit := false
+					if ifi != nil {
+						if bo, ok := ifi.Cond.(*ssa.BinOp); ok && (bo.Op == token.GTR || bo.Op == token.NEQ) {
+							if k, isC := constInt(bo.Y); isC && k == 0 {
+								if phi, ok := bo.X.(*ssa.Phi); ok {
+									for _, e := range phi.Edges {
+										if sub, ok := e.(*ssa.BinOp); ok && sub.Op == token.SUB {
+											if k1, isC1 := constInt(sub.Y); isC1 && k1 == 1 {
+												okExit = true
+											}
+										}
+										if p2, ok := e.(*ssa.Phi); ok {
+											for _, e2 := range p2.Edges {
+												if sub, ok := e2.(*ssa.BinOp); ok && sub.Op == token.SUB {
+													okExit = true
+												}
+											}
+										}
+									}
+								}
+							}
+						}
+					}
+					if !okExit {
+						good = false
+						why = "the eviction loop can also be left at " + p.instrPos(b.Instrs[len(b.Instrs)-1]) + " on a condition other than `evictCount > 0` being false: it may stop before enough handles were evicted, leaving more live handles than the configured maximum"
+					}
+				}
+			}
+			if nExit == 0 {
+				good, why = false, "eviction loop has no exit"
+			}
+			c.verdictIf(good, P, "evict-exit", "loop=Allocate-eviction", p.instrPos(delBlock.Instrs[0]), "exits only when the requested number of handles was evicted", why)
+		}
+	}
+
 	// deleters clear reverse mapping
 	for _, fn := range p.SrcFuncs {
 		if !strings.HasPrefix(fnKey(fn), "(*FileHandleMap).") {
@@ -308,6 +394,70 @@ func runC06(c *Ctx) {
 			}
 		}
 	}
+	// recycle: which methods put ids back into circulation
+	c.rule(P, "recycle", "no FileHandleMap method makes an issued id reusable (pushes it onto the free list) unless the free list is discarded again before it returns", 3)
+	pushQ := "(*" + absnfsPath + ".uint64MinHeap).PushValue"
+	isPush := func(in ssa.Instruction) bool {
+		ci, ok := in.(ssa.CallInstruction)
+		if !ok || !callsMethod(in, pushQ) {
+			return false
+		}
+		_, ok = isLoadOfField(ci.Common().Args[0], "FileHandleMap", "freeHandles")
+		return ok
+	}
+	pushers := map[*ssa.Function]bool{}
+	for _, fn := range p.SrcFuncs {
+		for _, b := range fn.Blocks {
+			for _, in := range b.Instrs {
+				if isPush(in) {
+					pushers[fn] = true
+				}
+			}
+		}
+	}
+	pushers = p.transitiveCallers(pushers)
+	for _, fn := range p.SrcFuncs {
+		if !strings.HasPrefix(fnKey(fn), "(*FileHandleMap).") || fn.Object() == nil || !fn.Object().Exported() {
+			continue
+		}
+		key := "method=" + fnKey(fn)
+		if !pushers[fn] {
+			c.ok(P, "recycle", key, p.pos(fn.Pos()), "never recycles an id")
+			continue
+		}
+		// every push (direct or via callee) must be followed by a reset of freeHandles
+		good := true
+		for _, b := range fn.Blocks {
+			for _, in := range b.Instrs {
+				ci, isCall := in.(ssa.CallInstruction)
+				if !isCall {
+					continue
+				}
+				viaCallee := false
+				for _, callee := range p.calleesAt(fn, ci) {
+					if pushers[callee] {
+						viaCallee = true
+					}
+				}
+				if !isPush(in) && !viaCallee {
+					continue
+				}
+				res := follow(followSpec{Fn: fn, From: in, Closes: func(x ssa.Instruction) bool {
+					st, ok := x.(*ssa.Store)
+					if !ok {
+						return false
+					}
+					_, f, ok := fieldAddrOf(st.Addr)
+					return ok && f != nil && f.Name() == "freeHandles"
+				}})
+				if !res.OK {
+					good = false
+				}
+			}
+		}
+		c.verdictIf(good, P, "recycle", key, p.pos(fn.Pos()), "ids it frees are discarded with the free list", fnKey(fn)+" puts issued handle values back on the free list: Allocate hands the smallest of them to the next new path, so a client still holding that value is served a different object instead of NFS3ERR_STALE")
+	}
+
 	// noreset
 	nh := p.field("FileHandleMap", "nextHandle")
 	nst := 0
